@@ -240,5 +240,5 @@ func init() {
 		}
 	}
 	reg("C05", true, upd)
-	reg("C16", true, func(k string, o *LifeOpts) { upd(k, o); o.ForcePush = true })
+	reg("C16", true, func(k string, o *LifeOpts) { upd(k, o); o.ForcePush = true; o.BadBases = true })
 }
